@@ -277,6 +277,9 @@ pub enum IdRef {
     /// chain) in a few bytes only: mode 0 the last byte, 1 the first byte, 2 the last six bytes,
     /// 3 the first six bytes - a near miss of an id the server knows
     Near(u8, u8, u8),
+    /// an id made from client ids: mode 0 the id of client `.0` itself used as a version id,
+    /// 1 that id xor the id of client `.1`, 2 its bitwise complement, 3 its bytes reversed
+    OfClients(u8, u8, u8),
 }
 
 #[derive(Clone, Debug, Serialize, Deserialize, PartialEq, Eq, Hash)]
@@ -489,6 +492,7 @@ fn idref(own: u8, n: u8, p: &GenParams, latest_w: u32) -> BoxedStrategy<IdRef> {
         rest * 10 / 100 + 1 => Just(IdRef::SnapVersion(own)),
         rest * 12 / 100 + 1 => (0u32..8).prop_map(IdRef::Fresh),
         rest * 6 / 100 + 1 => (0u8..4, 0u8..4).prop_map(move |(back, mode)| IdRef::Near(own, back, mode)),
+        rest * 4 / 100 + 1 => (0u8..4, 0u8..4, 0u8..4).prop_map(move |(a, b, mode)| IdRef::OfClients(a % n, b % n, mode)),
         rest * foreign / 100 + if foreign > 0 {1} else {0} => (any::<u8>(), 0u8..4, 0u8..6).prop_map(move |(k, which, b)| {
             let o = other(k);
             match which {
